@@ -66,6 +66,11 @@ def plan(seed, overrides=None):
         if rr.random() < cfg["degenerate_rate"]:
             e.pop(rr.choice(list(e.keys())))
         recipes[f"entry{i}"] = {"kind": "value", "v": enc(e)}
+        # Python API use: the numbers of a description come out of numpy (np.int64, np.float32, np.float64, np.complex128)
+        if rr.random() < 0.25:
+            recipes[f"entry{i}"]["npnum"] = True
+        if rr.random() < 0.25 and "alias" not in recipes[f"cdesc{i}"]:
+            recipes[f"cdesc{i}"]["npnum"] = True
     world = {"nd": nd, "recipes": recipes, "cfg": cfg}
     counter = [0]
     scripts = [_script(S("client", c), c, world, counter) for c in range(cfg["clients"])]
